@@ -58,6 +58,7 @@ def run(ctx, report):
     report.rule = ("files over every C01 dtype x null pattern, >=2 row groups, hive partitions, with / without pandas metadata, foreign-style "
                    "statistics (null_count absent, statistics absent), x read options (columns, categories, index, pandas_nulls); "
                    "non-trivial = >=1 row and (nulls or >=2 row groups or a non-default option); distinct by (dtype, variant, options)")
+    own_append_case(ctx, report)
     nfiles = 20 if ctx.quick else 140
     reqs = []
     for fidx in range(nfiles):
@@ -331,6 +332,38 @@ def _flush(ctx, report, reqs):
         if m != real_n and not (m and m.startswith("|S") and real_n == "bytes" + str(int(m[2:]) * 8)):
             report.corr_break("dtype.predict", {**rec, "request": req, "model": m, "real": real, "explained_by_known": False})
     report.count("model_requests", len(reqs))
+
+
+def own_append_case(ctx, report):
+    """after the handle's own write_row_groups the metadata answers must be those of a fresh handle (the appended rows may bring nulls)"""
+    import fastparquet
+    path = os.path.join(ctx.workdir("c17"), "own_append")
+    shutil.rmtree(path, ignore_errors=True)
+    rec = {"check": "predict", "variant": "own-append", "kinds": ["obj_int"], "layout": "hive"}
+    ctx.crumb(rec)
+    probs = []
+    try:
+        fastparquet.write(path, pd.DataFrame({"o": pd.Series([1, 2, 3], dtype=object), "b": pd.Series([True, False, True], dtype=object)}),
+                          file_scheme="hive", object_encoding={"o": "int", "b": "bool"}, write_index=False)
+        pf = fastparquet.ParquetFile(path)
+        before = {c: dname(d) for c, d in pf.dtypes.items()}
+        pf.write_row_groups(pd.DataFrame({"o": pd.Series([4, None], dtype=object), "b": pd.Series([None, True], dtype=object)}))
+        now = {c: dname(d) for c, d in pf.dtypes.items()}
+        fresh_pf = fastparquet.ParquetFile(path)
+        fresh = {c: dname(d) for c, d in fresh_pf.dtypes.items()}
+        if now != fresh:
+            probs.append(f"after its own append the handle reports {now}, a fresh handle {fresh} (before: {before})")
+        got, want = pf.to_pandas(), fresh_pf.to_pandas()
+        if {c: dname(got[c].dtype) for c in got.columns} != {c: dname(want[c].dtype) for c in want.columns} or len(got) != 5:
+            probs.append("the read through the appending handle differs from a fresh read")
+        if pf.count() != 5:
+            probs.append(f"count() = {pf.count()} after appending 2 rows to 3")
+    except Exception as e:  # noqa
+        probs.append("metadata query or read raised after the handle's own append: " + canon_err(e) + " " + str(e)[:100])
+    if probs:
+        report.violation({**rec, "what": "; ".join(probs)[:400], "sig": "own-append"})
+    report.case(("own-append",), True)
+    shutil.rmtree(path, ignore_errors=True)
 
 
 def search(ctx, report):
